@@ -33,7 +33,8 @@ def gen_case(rng, layer=None, role=None):
                 limit=rng.choice([1, 2, 3, 8, 255, rng.randint(1, 255)]), pacing=rng.choice([(0.0, 0.0), (0.0, 0.002), (0.0, 0.05), (0.05, 0.19)]),
                 bam_spacing=rng.choice([(0.05, 0.06), (0.05, 0.2), (0.19, 0.2)]) if not fd else rng.choice([(0.01, 0.012), (0.01, 0.2), (0.05, 0.2)]),
                 dt_interval=rng.choice([None, None, None, 0.001, 0.005, 0.02, 0.05]),
-                bam_interval=rng.choice([None, None, 0.01, 0.02, 0.05, 0.1, 0.19]), seed=rng.randrange(1 << 30))
+                bam_interval=rng.choice([None, None, 0.01, 0.02, 0.05, 0.1, 0.19]), seed=rng.randrange(1 << 30),
+                addrs=rng.choice([(0x10, 0x20), (0x10, 0x20), (0x00, 0x20), (0x10, 0x00), (253, 1), (rng.randrange(0, 127), rng.randrange(128, 254))]))
     while case['pf'] in (0xEA, 0xEB, 0xEC, 0xEE, 0x4D, 0x4E, 0x25):
         case['pf'] = rng.randrange(0, 240)
     if role.startswith('stack_bam'):
@@ -48,6 +49,7 @@ def run_exchange(case):
     role = case['role']
     rng = random.Random(case['seed'])
     W = World(case['seed'], layer, tuple(case['lat']), case['zero'])
+    STACK, REF = case.get('addrs', (0x10, 0x20))
     sim = W.sim
     kw = dict(max_cmdt_packets=case['w'])
     if case.get('dt_interval') is not None:
